@@ -86,14 +86,14 @@ type stlCue struct {
 }
 
 type stlGSI struct {
-	FPS                                                  int
-	DSC                                                  string
-	LC                                                   string
-	OPT, OET, TPT, TET, TN, TCD, SLR, CO, PUB, EN, ECD   string
-	CD, RD                                               string // yymmdd or ""
-	RN, MNC, MNR                                         int
-	TCP                                                  [4]int // h m s f
-	Lang                                                 string
+	FPS                                                int
+	DSC                                                string
+	LC                                                 string
+	OPT, OET, TPT, TET, TN, TCD, SLR, CO, PUB, EN, ECD string
+	CD, RD                                             string // yymmdd or ""
+	RN, MNC, MNR                                       int
+	TCP                                                [4]int // h m s f
+	Lang                                               string
 }
 
 type stlModel struct {
